@@ -355,7 +355,7 @@ def run(ctx: lib.Ctx) -> None:
     for text in ['', ' ', 'abandon', 'abandon ' * 11 + 'about', 'abandon ' * 12, ('zoo ' * 11 + 'wrong'), ('zoo ' * 23 + 'vote'), 'legal winner thank year wave sausage worth useful legal winner thank yellow']:
         acc = a_validate(cs, text.strip(' ') if text.strip(' ') else text, 'fixed')
 
-    bad = ctx.coq_mismatches('store', IMPORTS, 'run_case', 'outcome_eqb', 'otable * op', 'outcome', cs.cases, shard=100, prelude=PRELUDE)
+    bad = ctx.coq_mismatches('store', IMPORTS, 'run_case', 'outcome_eqb', 'otable * op', 'outcome', cs.cases, shard=(250 if not ctx.thorough else 400), prelude=PRELUDE)
     ctx.extra['correspondence_cases'] = len(cs.cases)
     ctx.extra['correspondence_disagreements'] = len(bad)
 
